@@ -1335,20 +1335,20 @@ pub fn unify(
             )))
         }
 
-        // Concrete union with pattern non-union - pattern must match one variant
+        // Concrete union with pattern non-union - the argument must be a subtype of the
+        // parameter, so the pattern has to accept every variant (a type variable bound by more
+        // than one variant widens to their union)
         (_, Type::Union(variants)) => {
             let variants = variants.clone();
             for &variant in &variants {
-                let mut temp_bindings = bindings.clone();
-                if unify(&mut temp_bindings, pattern_id, variant, program).is_ok() {
-                    *bindings = temp_bindings;
-                    return Ok(());
-                }
+                unify(bindings, pattern_id, variant, program).map_err(|_| {
+                    Error::TypeUnresolved(format!(
+                        "Cannot unify pattern with concrete union ({} variants)",
+                        variants.len()
+                    ))
+                })?;
             }
-            Err(Error::TypeUnresolved(format!(
-                "Cannot unify pattern with concrete union ({} variants)",
-                variants.len()
-            )))
+            Ok(())
         }
 
         // All other combinations are incompatible
